@@ -82,26 +82,6 @@ class construct_loading_tasks:
     helpers = _H
     imports = NATIVE_IMPORTS
 
-    @staticmethod
-    def result(interp, bound):
-        """for callers: a DaskArrayList of N sub-volumes of the requested shape with uninterpreted voxels"""
-        import z3
-        from pyvc import loops as _loops
-        from pyvc.arrays import SArr
-        from pyvc.values import Sym
-        n = bound["self"].attrs["_molecules"].attrs["_pos"].shape[0]
-        shape = tuple(bound["output_shape"])
-        f = z3.Function(V.fresh_name("subvolume"), *([z3.IntSort()] * 4), z3.RealSort())
-        cache = {}
-
-        def get(i):
-            k = i.t.sexpr() if isinstance(i, Sym) else i
-            if k not in cache:
-                cache[k] = SArr(shape, lambda idx, i=i: Sym(f(V.lift(i), *[V.lift(x) for x in idx])), "real")
-            return cache[k]
-        lst = _loops.SList(n, get)
-        return make_obj(interp, "acryo._dask:DaskArrayList", _arrays=lst)
-    call_ensures = ["one_task_per_molecule"]
     native_call = "args['self'].construct_loading_tasks(args['output_shape'])"
     may_raise = {"SubvolumeOutOfBoundError": "True"}  # a molecule whose window misses the tomogram (clause of prepare_affine)
     native = {"one_task_per_molecule": "len(result) == len(self.molecules)", "task_i_is_molecule_i": "True"}
